@@ -18,6 +18,8 @@ import (
 	"fmt"
 	"io"
 	"net"
+	"net/http"
+	"net/http/httptest"
 	"net/netip"
 	"os"
 	"os/exec"
@@ -32,7 +34,12 @@ import (
 
 	"github.com/go-logr/logr"
 	"github.com/vishvananda/netlink"
+	corev1 "k8s.io/api/core/v1"
 	apierrors "k8s.io/apimachinery/pkg/api/errors"
+	metav1 "k8s.io/apimachinery/pkg/apis/meta/v1"
+	k8stypes "k8s.io/apimachinery/pkg/types"
+	"k8s.io/client-go/rest"
+	ctrlclient "sigs.k8s.io/controller-runtime/pkg/client"
 	"k8s.io/apimachinery/pkg/runtime/schema"
 	logf "sigs.k8s.io/controller-runtime/pkg/log"
 
@@ -377,10 +384,93 @@ type dK8s struct {
 	listErr bool
 	gates   map[int]chan struct{} // rpc id -> GetPod waits here (after the event)
 	atGate  chan int
+	// "real client" scenarios: GetPod / GetLocalPods / PodExist are answered by the REAL pkg/k8s code talking to
+	// a small API server (dAPI) which has the two views a real one has; this wrapper only records what was asked
+	// and answered, and keeps the gates
+	real k8s.Kubernetes
+	api  *dAPI
+}
+
+const dNode = "node1"
+
+// dAPI: the authoritative store (consistent reads) and the watch cache (reads with resourceVersion=0), which has not
+// yet seen the pods marked lag. It records for every pod whether the last GET was a consistent read.
+type dAPI struct {
+	mu      sync.Mutex
+	pods    map[int]dAPIPod
+	lastRV0 map[int]bool
+	srv     *httptest.Server
+}
+
+type dAPIPod struct{ api, lag bool }
+
+func dAPIJSON(w http.ResponseWriter, code int, obj interface{}) {
+	w.Header().Set("Content-Type", "application/json")
+	w.WriteHeader(code)
+	_ = json.NewEncoder(w).Encode(obj)
+}
+
+func dAPIPodObj(p int) *corev1.Pod {
+	return &corev1.Pod{
+		TypeMeta:   metav1.TypeMeta{Kind: "Pod", APIVersion: "v1"},
+		ObjectMeta: metav1.ObjectMeta{Namespace: dNS, Name: dPodName(p), UID: k8stypes.UID(fmt.Sprintf("uid-%d", p))},
+		Spec:       corev1.PodSpec{NodeName: dNode},
+		Status:     corev1.PodStatus{Phase: corev1.PodRunning},
+	}
+}
+
+func (a *dAPI) ServeHTTP(w http.ResponseWriter, r *http.Request) {
+	a.mu.Lock()
+	defer a.mu.Unlock()
+	rv0 := r.URL.Query().Get("resourceVersion") == "0"
+	visible := func(st dAPIPod) bool { return st.api && !(rv0 && st.lag) }
+	parts := strings.Split(strings.Trim(r.URL.Path, "/"), "/")
+	notFound := func(name string) {
+		dAPIJSON(w, 404, &metav1.Status{TypeMeta: metav1.TypeMeta{Kind: "Status", APIVersion: "v1"}, Status: metav1.StatusFailure,
+			Reason: metav1.StatusReasonNotFound, Code: 404, Message: fmt.Sprintf("pods %q not found", name),
+			Details: &metav1.StatusDetails{Name: name, Kind: "pods"}})
+	}
+	switch {
+	case r.Method == http.MethodGet && r.URL.Path == "/api/v1/pods":
+		list := &corev1.PodList{TypeMeta: metav1.TypeMeta{Kind: "PodList", APIVersion: "v1"}}
+		list.ResourceVersion = "100"
+		ps := []int{}
+		for p := range a.pods {
+			ps = append(ps, p)
+		}
+		sort.Ints(ps)
+		for _, p := range ps {
+			if visible(a.pods[p]) {
+				list.Items = append(list.Items, *dAPIPodObj(p))
+			}
+		}
+		dAPIJSON(w, 200, list)
+	case r.Method == http.MethodGet && len(parts) == 6 && parts[2] == "namespaces" && parts[4] == "pods":
+		p := dPodNum(parts[5])
+		a.lastRV0[p] = rv0
+		if st, ok := a.pods[p]; !ok || !visible(st) {
+			notFound(parts[5])
+			return
+		}
+		dAPIJSON(w, 200, dAPIPodObj(p))
+	default:
+		notFound(r.URL.Path)
+	}
+}
+
+func dNewRealK8s(t *testing.T) (k8s.Kubernetes, *dAPI) {
+	a := &dAPI{pods: map[int]dAPIPod{}, lastRV0: map[int]bool{}}
+	a.srv = httptest.NewServer(a)
+	c, err := ctrlclient.New(&rest.Config{Host: a.srv.URL}, ctrlclient.Options{Scheme: types.Scheme, Mapper: types.NewRESTMapper()})
+	if err != nil {
+		t.Fatalf("api client: %v", err)
+	}
+	return k8s.VerifDaemonNewK8S(c, dNode, daemon.ModeENIMultiIP), a
 }
 
 func (k *dK8s) clone(x *dWorld) *dK8s {
-	n := &dK8s{x: x, pods: map[int]*dPod{}, apiErr: k.apiErr, listErr: k.listErr, gates: map[int]chan struct{}{}, atGate: make(chan int, 256)}
+	n := &dK8s{x: x, pods: map[int]*dPod{}, apiErr: k.apiErr, listErr: k.listErr, gates: map[int]chan struct{}{}, atGate: make(chan int, 256),
+		real: k.real, api: k.api}
 	for p, st := range k.pods {
 		c := *st
 		n.pods[p] = &c
@@ -400,15 +490,27 @@ func dPodInfo(p int, st *dPod) *daemon.PodInfo {
 func (k *dK8s) GetPod(ctx context.Context, namespace, name string, cache bool) (*daemon.PodInfo, error) {
 	r, _ := ctx.Value(dRpcKey{}).(int)
 	p := dPodNum(name)
-	k.x.enter()
-	st := k.pods[p]
-	found := st != nil && (st.api || st.cached)
-	sticky := found && st.sticky
-	var pi *daemon.PodInfo
-	if found {
-		pi = dPodInfo(p, st)
+	var (
+		pi      *daemon.PodInfo
+		realErr error
+		found   bool
+		sticky  bool
+	)
+	if k.real != nil {
+		pi, realErr = k.real.GetPod(ctx, namespace, name, cache)
+		k.x.enter()
+		found = realErr == nil
+		sticky = found && pi.IPStickTime != 0
+	} else {
+		k.x.enter()
+		st := k.pods[p]
+		found = st != nil && (st.api || st.cached)
+		sticky = found && st.sticky
+		if found {
+			pi = dPodInfo(p, st)
+		}
 	}
-	k.x.emit(vt.M{"ev": "k8s_getpod", "r": r, "p": p, "cache": cache, "found": found, "sticky": sticky})
+	k.x.emit(vt.M{"ev": "k8s_getpod", "r": r, "p": p, "cache": cache, "found": found, "sticky": sticky, "chk": k.real == nil})
 	g := k.gates[r]
 	delete(k.gates, r)
 	k.x.mu.Unlock()
@@ -423,6 +525,9 @@ func (k *dK8s) GetPod(ctx context.Context, namespace, name string, cache bool) (
 	if err := ctx.Err(); err != nil {
 		return nil, err // what a real client does with a cancelled request
 	}
+	if k.real != nil {
+		return pi, realErr
+	}
 	if !found {
 		return nil, apierrors.NewNotFound(schema.GroupResource{Resource: "pods"}, name)
 	}
@@ -430,6 +535,20 @@ func (k *dK8s) GetPod(ctx context.Context, namespace, name string, cache bool) (
 }
 
 func (k *dK8s) GetLocalPods() ([]*daemon.PodInfo, error) {
+	if k.real != nil {
+		list, err := k.real.GetLocalPods()
+		live := []int{}
+		for _, pi := range list {
+			if !pi.SandboxExited {
+				live = append(live, dPodNum(pi.Name))
+			}
+		}
+		sort.Ints(live)
+		k.x.enter()
+		k.x.emit(vt.M{"ev": "k8s_localpods", "live": live, "err": err != nil})
+		k.x.mu.Unlock()
+		return list, err
+	}
 	k.x.enter()
 	defer k.x.mu.Unlock()
 	if k.listErr {
@@ -459,15 +578,25 @@ func (k *dK8s) GetLocalPods() ([]*daemon.PodInfo, error) {
 
 func (k *dK8s) PodExist(namespace, name string) (bool, error) {
 	p := dPodNum(name)
+	if k.real != nil {
+		ex, err := k.real.PodExist(namespace, name)
+		k.api.mu.Lock()
+		cons := !k.api.lastRV0[p] // what the API server saw: a consistent read, or one it may answer from its watch cache
+		k.api.mu.Unlock()
+		k.x.enter()
+		k.x.emit(vt.M{"ev": "k8s_podexist", "p": p, "exist": ex, "err": err != nil, "cons": cons})
+		k.x.mu.Unlock()
+		return ex, err
+	}
 	k.x.enter()
 	defer k.x.mu.Unlock()
 	if k.apiErr {
-		k.x.emit(vt.M{"ev": "k8s_podexist", "p": p, "exist": false, "err": true})
+		k.x.emit(vt.M{"ev": "k8s_podexist", "p": p, "exist": false, "err": true, "cons": true})
 		return false, fmt.Errorf("verif: injected API failure")
 	}
 	st := k.pods[p]
 	ex := st != nil && st.api
-	k.x.emit(vt.M{"ev": "k8s_podexist", "p": p, "exist": ex, "err": false})
+	k.x.emit(vt.M{"ev": "k8s_podexist", "p": p, "exist": ex, "err": false, "cons": true})
 	return ex, nil
 }
 
@@ -609,6 +738,7 @@ type dConf struct {
 	n1, n2, slots, cap int
 	policy, fam        string
 	probe              bool
+	realk8s            bool // the API server is asked through the real pkg/k8s code
 }
 
 type dSys struct {
@@ -1326,8 +1456,20 @@ func (d *dDriver) step(st vt.M) {
 	case "pod":
 		p := vt.Int(st["p"])
 		s = d.lock()
-		s.k8s.pods[p] = &dPod{api: vt.Bool(st["api"]), loc: vt.Str(st["loc"]), sticky: vt.Bool(st["sticky"]), cached: vt.Bool(st["cached"])}
-		s.x.emit(vt.M{"ev": "env_pod", "p": p, "api": vt.Bool(st["api"]), "loc": vt.Str(st["loc"]), "sticky": vt.Bool(st["sticky"]), "cached": vt.Bool(st["cached"])})
+		np := &dPod{api: vt.Bool(st["api"]), loc: vt.Str(st["loc"]), sticky: vt.Bool(st["sticky"]), cached: vt.Bool(st["cached"])}
+		if s.k8s.real != nil {
+			// real client: the node-local list is what the API server's watch cache shows (lag: it has not seen the pod yet)
+			lag := vt.Bool(st["lag"])
+			np.loc, np.sticky, np.cached = "none", false, false
+			if np.api && !lag {
+				np.loc = "run"
+			}
+			s.k8s.api.mu.Lock()
+			s.k8s.api.pods[p] = dAPIPod{api: np.api, lag: lag}
+			s.k8s.api.mu.Unlock()
+		}
+		s.k8s.pods[p] = np
+		s.x.emit(vt.M{"ev": "env_pod", "p": p, "api": np.api, "loc": np.loc, "sticky": np.sticky, "cached": np.cached})
 		s.x.mu.Unlock()
 	case "call":
 		d.reap()
@@ -1431,7 +1573,7 @@ func (d *dDriver) finish() {
 
 func dConfOf(m vt.M) dConf {
 	c := dConf{n1: vt.Int(m["n1"]), n2: vt.Int(m["n2"]), slots: vt.Int(m["slots"]), cap: vt.Int(m["cap"]),
-		policy: vt.Str(m["policy"]), fam: vt.Str(m["fam"]), probe: vt.Bool(m["probe"])}
+		policy: vt.Str(m["policy"]), fam: vt.Str(m["fam"]), probe: vt.Bool(m["probe"]), realk8s: vt.Bool(m["realk8s"])}
 	if c.policy == "" {
 		c.policy = "most_ips"
 	}
@@ -1621,6 +1763,29 @@ func dRandomScenarios(fam string, n int) [][]vt.M {
 				sc = append(sc, dCall("add", p, 3, "none"))
 			}
 		case "c09":
+			if i%4 == 3 {
+				// real pkg/k8s client against an API server whose watch cache lags: a pod is created and its ADD completes
+				// before the cache has seen it; GC passes run meanwhile, then the cache catches up; other pods are really gone
+				cf["realk8s"] = true
+				sc = []vt.M{{"a": "conf", "conf": cf}}
+				rp := func(p int, api, lag bool) vt.M { return vt.M{"a": "pod", "p": p, "api": api, "lag": lag} }
+				fresh := 1 + rng.Intn(3)
+				for p := 1; p <= np; p++ {
+					sc = append(sc, rp(p, true, p == fresh && rng.Intn(4) > 0), dCall("add", p, 1, "none"))
+				}
+				gone := 1 + fresh%3
+				if rng.Intn(3) > 0 {
+					sc = append(sc, rp(gone, false, false))
+				}
+				sc = append(sc, vt.M{"a": "gc"})
+				if rng.Intn(2) == 0 {
+					sc = append(sc, vt.M{"a": "gc"})
+				}
+				sc = append(sc, rp(fresh, true, false), vt.M{"a": "gc"}, vt.M{"a": "gc"},
+					dCall("add", gone, 2, "none"), dCall("get", fresh, 1, "none"), vt.M{"a": "gc"})
+				out = append(out, sc)
+				continue
+			}
 			// records for some pods, then pods vanish / exit / stay, then three GC passes; variants interleave requests
 			for p := 1; p <= np; p++ {
 				if rng.Intn(5) > 0 {
@@ -1737,8 +1902,11 @@ func TestVerifDaemon(t *testing.T) {
 			cloud.nextEni = i + 1
 		}
 		kk := &dK8s{x: x, pods: map[int]*dPod{}, gates: map[int]chan struct{}{}, atGate: make(chan int, 256)}
+		if conf.realk8s {
+			kk.real, kk.api = dNewRealK8s(t)
+		}
 		w.Emit(vt.M{"ev": "reset", "scen": si, "fam": conf.fam, "cloud": cloud.snapshot(),
-			"conf": vt.M{"n1": conf.n1, "n2": conf.n2, "slots": conf.slots, "cap": conf.cap, "policy": conf.policy, "probe": conf.probe}})
+			"conf": vt.M{"n1": conf.n1, "n2": conf.n2, "slots": conf.slots, "cap": conf.cap, "policy": conf.policy, "probe": conf.probe, "realk8s": conf.realk8s}})
 		s, err := dStart(t, conf, x, cloud, kk, dir, filepath.Join(dir, "ResRelation.db"))
 		if err != nil {
 			t.Fatalf("start: %v", err)
@@ -1750,6 +1918,9 @@ func TestVerifDaemon(t *testing.T) {
 			d.step(st)
 		}
 		d.finish()
+		if kk.api != nil {
+			kk.api.srv.Close()
+		}
 		_ = os.RemoveAll(dir)
 		t.Logf("scenario %d: %d steps, %d probes (%v), obs %v, total %v", si, len(sc)-1, d.probes, d.probeTime.Round(time.Millisecond), d.obsTime.Round(time.Millisecond), time.Since(t0).Round(time.Millisecond))
 	}
